@@ -267,6 +267,18 @@ def judge_c05(d):
     return None
 
 
+def judge_c13(d):
+    q, impl, model = d["query"], d["impl"], d["model"]
+    t = q.split()
+    if t[1] == "client":
+        return "credentials read from the file differ from the TOML string values: got %s, TOML says %s" % (impl[:120], model[:120])
+    if t[1] == "auth":
+        return "registry verdict %s, expected %s (accepted iff token = base64(user:password) of a listed pair)" % (impl, model)
+    if t[1] == "validate":
+        return "start-up verdict %s, expected %s" % (impl, model)
+    return None
+
+
 PROPS = {
     "C03": dict(
         suites=["c03"],
@@ -377,5 +389,23 @@ PROPS = {
                  "std RwLock gives each select one consistent TlsDemux (exercised by the concurrent suite, not proved)",
                  "QUIC SNI callback uses the same select (read, not driven)"],
         assumptions=["an alternative SNI listed for two main hosts is resolved by HashMap iteration order: generator keeps them unique"],
+    ),
+    "C13": dict(
+        suites=["c13"],
+        judge=judge_c13,
+        level="proof",
+        rule="user names / passwords over an alphabet with quotes, backslash, #, =, brackets, tab, newline, CR, BS, FF, DEL, U+0001, "
+             "accented, CJK, emoji, colon, with optional surrounding spaces, each written in every lexeme style able to express it "
+             "(canonical basic, literal, all \\uXXXX/\\UXXXXXXXX, short escapes) plus invalid lexemes (unknown escape, surrogate, "
+             "> U+10FFFF, raw control, unterminated, stray quote, empty, non-strings, missing keys) read through the real Settings "
+             "deserialiser; registry verdicts for correct / wrong / truncated / unpadded / case-changed / raw tokens and SNI sources; "
+             "the wizard's own compose_credentials_content (copied from tools/ by the extractor) read back by the endpoint; exported "
+             "client configuration parsed back; 420 start-up configurations through TOML + Core::new; TLS host validation cases",
+        explanation="theorems decode_encode_basic, literal_verbatim, basic_plain_verbatim, load_ok_iff, empty_rejected, base64_injective, "
+                    "accepted_iff_listed, accepted_token_identifies_pair, refuses_to_start_iff about TT/Model/Creds.lean",
+        trusted=["toml_edit for everything outside single-line basic/literal strings (multi-line strings are outside the model)",
+                 "the wizard and the client export use toml_edit's own string encoder: their round trips are exercised, not proved",
+                 "base64 crate = the modelled standard padded alphabet (tied by the registry verdicts)"],
+        assumptions=[],
     ),
 }
